@@ -703,11 +703,11 @@ def build_real(c, ua):
         tt = Time(T0 + t[idx], format="mjd", scale="tcb")
         y = (np.array(c["y"])[idx] * kms).to(sdu)
         err = (np.sqrt(np.array(c["sig2"])[idx]) * kms).to(U(ua["err_units"][j]))
-        srcs.append(RVData(tt, y, err, t_ref=(False if c.get("tref_off") else Time(T0, format="mjd", scale="tcb"))) if noff == 0
-                    else RVData(tt, y, err))
+        srcs.append(RVData(tt, y, err, t_ref=(False if c.get("tref_off") else Time(T0, format="mjd", scale="tcb")))
+                    if noff == 0 and not c.get("tref_min") else RVData(tt, y, err))
     data = srcs[0] if noff == 0 else srcs
     # with several surveys the reference epoch is the earliest epoch of the merged data; without reference epoch it is BMJD 0
-    tref_shift = (-T0 if c.get("tref_off") else 0.0) if noff == 0 else float(np.min(t))
+    tref_shift = (-T0 if c.get("tref_off") else 0.0) if noff == 0 and not c.get("tref_min") else float(np.min(t))
     ku = U(ua["kprior"])
     slot_names = ["v0"] + ["dv0_%d" % j for j in range(1, noff + 1)] + ["v%d" % i for i in range(1, poly)]
     tu = U(ua["slope_t"])
@@ -868,6 +868,85 @@ def offlattice(ctx, family, n, key):
     ctx.notes["off_lattice_problems"] = len(res)
     ctx.notes["off_lattice_comparisons"] = used
     ctx.notes["off_lattice_largest_relative_deviation"] = worst
+    return res
+
+
+def realize_few_epochs(case):
+    """off the lattice, where B = C + M Lambda M^T is far from the scale of C: FEWER epochs than broadly-prior'd linear parameters
+    (1-3 epochs, a quadratic or cubic trend with prior widths of 1e4..1e7 km/s/d^i).  Only the marginal likelihood is asked for
+    (the conditional posterior of such a problem is degenerate); the reference is exact rational arithmetic on the float inputs."""
+    import random as _random
+    import astropy.units as u
+    from thejoker import TheJoker
+    from . import gauss_oracle as go
+    rnd = _random.Random(case["seed"])
+    c = random_real_config(rnd)
+    poly = rnd.choice([2, 3, 3])
+    N = rnd.randint(1, poly)
+    start = rnd.uniform(-30.0, 60.0)
+    t = sorted(start + rnd.uniform(0, rnd.choice([3.0, 40.0, 300.0])) for _ in range(N))
+    broad = 10.0 ** rnd.uniform(4, 7)
+    c.update(t=t, lab=[0] * N, y=[rnd.gauss(0, 20.0) for _ in range(N)], sig2=[rnd.uniform(0.05, 1.0) ** 2 for _ in range(N)],
+             poly=poly, noff=0, mu=[0.0] * poly, var=[broad ** 2] * poly, tref_off=False,
+             # the default reference epoch is the earliest time: the first epoch then has dt = 0 exactly (exact zeros in the design matrix)
+             tref_min=rnd.random() < 0.6)
+    ua = random_units(rnd, 1 + poly)
+    out = {"id": case["id"], "seed": case["seed"], "c": dict(c), "ok": False}
+    try:
+        from thejoker import JokerSamples
+        data, prior, smp, slot_names, shift = build_real(c, ua)
+        ratio = (1 * u.km / u.s).to_value(U(ua["data"]))
+        # many rows per problem: whether an unneeded factorisation hits an exactly zero pivot depends on the row
+        R = 24
+        Ps = [math.exp(rnd.uniform(math.log(1.5), math.log(400.0))) for _ in range(R)]
+        es = [rnd.choice([0.0, rnd.uniform(0, 0.9)]) for _ in range(R)]
+        oms = [rnd.uniform(0, 2 * math.pi) for _ in range(R)]
+        M0s = [rnd.uniform(0, 2 * math.pi) for _ in range(R)]
+        rows = JokerSamples(poly_trend=c["poly"], n_offsets=0)
+        rows["P"] = (np.array(Ps) * u.day).to(smp["P"].unit)
+        rows["e"] = np.array(es)
+        rows["omega"] = (np.array(oms) * u.rad).to(smp["omega"].unit)
+        rows["M0"] = (np.array(M0s) * u.rad).to(smp["M0"].unit)
+        rows["s"] = np.repeat(smp["s"], R)
+        joker = TheJoker(prior, rng=np.random.default_rng(case["seed"]))
+        with np.errstate(all="ignore"):
+            ll_mem = np.asarray(joker.marginal_ln_likelihood(data, rows, in_memory=True), dtype=float)
+            ll_file = np.asarray(joker.marginal_ln_likelihood(data, rows), dtype=float)
+        out["finite"] = bool(np.all(np.isfinite(ll_mem)) and np.all(np.isfinite(ll_file)))
+        out["n_not_finite"] = int(np.sum(~np.isfinite(ll_mem)) + np.sum(~np.isfinite(ll_file)))
+        dev = 0.0
+        for k in range(R):
+            c2 = dict(c)
+            c2["t"] = [x - shift for x in c["t"]]
+            c2.update(P=Ps[k], e=es[k], omega=oms[k], M0=(M0s[k] - 2 * np.pi * shift / Ps[k]))
+            want = go.ln_marginal_exact(c2) - N * math.log(ratio)
+            if np.isfinite(ll_mem[k]) and np.isfinite(ll_file[k]):
+                dev = max(dev, max(abs(ll_mem[k] - want), abs(ll_file[k] - want)) / max(1.0, abs(want)))
+        out["dev_ll"] = float(dev)
+        out["ll"], out["ll_file"] = [float(x) for x in ll_mem[:4]], [float(x) for x in ll_file[:4]]
+        out["ok"] = True
+    except Exception as ex:
+        out["exc"] = "%s: %s" % (type(ex).__name__, str(ex)[:200])
+    return out
+
+
+def offlattice_few_epochs(ctx, family, n):
+    from . import core
+    res = core.pmap(realize_few_epochs, [{"id": "few-%s-%d" % (family, i), "seed": ctx.seed * 100000 + 11 * i + 3} for i in range(n)], chunksize=4)
+    worst = 0.0
+    for r in res:
+        ctx.count()
+        if not r["ok"]:
+            ctx.fail("%s.OffLatticeProblemRaises" % family, r)
+        elif not r["finite"]:
+            ctx.fail("%s.FiniteForFiniteValidInput" % family, r, detail={"ll": r["ll"], "ll_file": r["ll_file"]})
+        elif not (r["dev_ll"] <= OFF_TOL):
+            ctx.fail("%s.OffLatticeMarginalIsTheClosedForm" % family, r, detail={"dev_ll": r["dev_ll"]})
+        else:
+            worst = max(worst, r["dev_ll"])
+        ctx.nontrivial(("few", r["seed"]))
+    ctx.notes["few_epoch_problems"] = len(res)
+    ctx.notes["few_epoch_largest_relative_deviation"] = worst
     return res
 
 
